@@ -7,6 +7,7 @@
     "substitutions", "List[Substitution]", "[]", "The history of previous source codes before the latest substitutions."
     "success", "bool", "None", "Whether the current file has been parsed successfully."
     "ast", "ast.Ast", "None", "The root node of the latest successfully parsed chunk of code."
+    "code", "str", "None", "The text that ``ast`` and ``success`` are about."
 
 """
 import sys
@@ -38,6 +39,7 @@ def reset(report=MAIN_REPORT):
 
         'success': None,
         'ast': None,
+        'code': None,
 
         'independent': None,
         'sections': None,
@@ -130,6 +132,7 @@ def verify(code=None, filename=DEFAULT_STUDENT_FILENAME, report=MAIN_REPORT,
         source_file_not_found(filename, None, enhance=enhance, report=report, muted=muted)
         report[TOOL_NAME]['success'] = False
         return False
+    report[TOOL_NAME]['code'] = code
     if code.strip() == '':
         blank_source(enhance=enhance, report=report, muted=muted)
         report[TOOL_NAME]['success'] = False
